@@ -1,7 +1,7 @@
 (* C07  Transfer accounting counts every block position once.  Statements only. *)
 From Coq Require Import List NArith ZArith String Bool.
 From DT Require Import GenStatus GenEvent FsmTypes GenFsm Fsm FsmFacts Caches C07Proofs.
-From DT Require Conc C07Conc.
+From DT Require Conc C07Conc GenDecide DecideEq.
 Import ListNotations.
 Local Open Scope Z_scope.
 
@@ -91,3 +91,21 @@ Theorem C07_concurrent_reports_counted_once :
     (Conc.c_dur s = seed \/ exists j, (j < n)%nat /\ Conc.p_idx (reps j) = Conc.c_dur s).
 Proof. exact C07Conc.concurrent_reports_counted_once. Qed.
 Print Assumptions C07_concurrent_reports_counted_once.
+
+(* the durable values the caches are lazily seeded from after a (re)start, and the events each kind
+   of block report fires, are the ones in the source: regenerated on every run from
+   channels/channels.go (DataQueued / DataSent / DataReceived, getXIndex, getXProgress) and the
+   accessors of channels/channel_state.go they read *)
+Theorem C07_cache_seeding_is_the_sources :
+  forall k c,
+    GenDecide.gen_index_seed k c = Caches.durable_index k c /\
+    GenDecide.gen_progress_seed k c =
+      (if Caches.limited k then Some (c_limit c, Caches.durable_total k c) else None).
+Proof. exact DecideEq.cache_seeding_is_source. Qed.
+Print Assumptions C07_cache_seeding_is_the_sources.
+
+Theorem C07_report_wiring_is_the_sources :
+  forall k, GenDecide.gen_data_event k = Caches.data_event k /\
+            GenDecide.gen_progress_event k = Caches.progress_event k.
+Proof. exact DecideEq.report_wiring_is_source. Qed.
+Print Assumptions C07_report_wiring_is_the_sources.
